@@ -343,6 +343,12 @@ def run_case(case):
     @app.route('/q', method=['GET', 'POST'])
     def h():
         req = app.request
+        # the raw body is looked at first (as a signature-checking hook would do): the decoded form must not depend on it
+        pre = len(repr(case.get('pairs'))) % 3
+        if pre == 1:
+            req.body.read()
+        elif pre == 2:
+            req.body.read(3)
         seen['query'] = _snap(req.query)
         seen['GET'] = _snap(req.GET)
         seen['forms'] = _snap(req.forms)
